@@ -247,6 +247,10 @@ class Loop:
     def inv(self, c, e, V):
         return []
 
+    def lemmas(self, c, e, V, k):
+        """valid lemma-schema instances (hypothesis embedded) assumed in the loop step"""
+        return []
+
 
 LOOPS = {}
 
@@ -292,4 +296,95 @@ class DimensionOfLoop(Loop):
             yield "NF-" + nm, f
 
 
+    def lemmas(self, c, e, V, k):
+        # S_update: two maps that differ at most at k
+        m = as_vmap(c, e.factors)
+        R, R2 = restrict(m, V), restrict(m, z3.Store(V, k, z3.BoolVal(True)))
+        b, i = z3.Const("b!su", U), z3.Int("i!su")
+        yield z3.Implies(z3.ForAll([b], z3.Implies(b != k, z3.Select(R2, b) == z3.Select(R, b))),
+                         z3.ForAll([i], dimOf(R2, i) == dimOf(R, i) + (z3.Select(R2, k) - z3.Select(R, k)) * bdexp(k, i)))
+        i2 = z3.Int("i!ss")
+        yield z3.ForAll([i2], dimOf(z3.Store(z3.K(U, z3.IntVal(0)), k, z3.IntVal(1)), i2) == bdexp(k, i2))
+
+
 LOOPS[("measured.Unit._dimension_of", 0)] = DimensionOfLoop()
+
+
+class _UnitDispatch(Contract):
+    """Unit.__mul__ / __truediv__: dispatch on the operand type."""
+    props = ("C01", "C02", "C03", "C11")
+    inv = ("I_D", "I_P", "I_U")
+    modifies = _UnitBin.modifies
+    sign = 1
+
+    def ret(self, a):
+        if isinstance(a.other, VObj) and a.other.cls == "Unit":
+            return T_UNIT
+        if self.sign == 1 and (isinstance(a.other, (VInt, VNum))):
+            return T_QTY
+        return ("notimpl",)
+
+    def requires(self, c, a):
+        yield "wf-self", wf_unit(c, a.self)
+        if isinstance(a.other, VObj) and a.other.cls == "Unit":
+            yield "wf-other", wf_unit(c, a.other)
+
+    def ensures(self, c, a, r):
+        o = c.old
+        if isinstance(a.other, VObj) and a.other.cls == "Unit":
+            if not (isinstance(r, VObj) and r.cls == "Unit"):
+                yield "returns-unit", z3.BoolVal(False)
+                return
+            yield from _UnitBin.ensures(self, c, a, r)
+        elif self.sign == 1 and isinstance(a.other, (VInt, VNum)):
+            if not (isinstance(r, VObj) and r.cls == "Quantity"):
+                yield "returns-quantity", z3.BoolVal(False)
+                return
+            from pyvc.ops import to_num
+            yield "quantity-fresh", z3.Not(o.alive(r))
+            yield "quantity-unit", c.f(r, "unit") == a.self.ref
+            yield "quantity-magnitude", c.f(r, "magnitude") == to_num(a.other).z
+        else:
+            yield "not-implemented", z3.BoolVal(isinstance(r, VNotImpl))
+
+
+@contract
+class UnitMul(_UnitDispatch):
+    qual = "measured.Unit.__mul__"
+    types = {"other": [T_UNIT, ("int",), ("float",), ("dec",), T_PFX, ("other",)]}
+    modifies = _UnitBin.modifies + ("new:Quantity",)
+
+
+@contract
+class UnitTruediv(_UnitDispatch):
+    qual = "measured.Unit.__truediv__"
+    sign = -1
+    types = {"other": [T_UNIT, ("int",), ("other",)]}
+
+
+@contract
+class UnitQuantify(Contract):
+    """Unit.quantify: prefix factor times the unprefixed unit (C11)."""
+    qual = "measured.Unit.quantify"
+    props = ("C01", "C11")
+    inv = ("I_D", "I_P", "I_U")
+    modifies = _UnitBin.modifies + ("new:Quantity",)
+    ret = T_QTY
+
+    def requires(self, c, a):
+        yield "wf-self", wf_unit(c, a.self)
+
+    def ensures(self, c, a, r):
+        from .c_prefix import pval
+        o = c.old
+        ru = VObj("Unit", c.f(r, "unit"))
+        yield "fresh-quantity", z3.And(c.alive(r), z3.Not(o.alive(r)))
+        yield "unit-live", live(c, ru)
+        yield "unit-unprefixed", c.f(ru, "prefix") == IdentityPrefix.ref
+        yield "unit-factors", c.f(ru, "factors") == o.f(a.self, "factors")
+        yield "unit-dimension", pointwise(c, VObj("Dimension", c.f(ru, "dimension")), lambda i: dexp(o, VObj("Dimension", o.f(a.self, "dimension")), i))
+        yield "magnitude-is-prefix-value", Num.nval(c.f(r, "magnitude")) == pval(o, VObj("Prefix", o.f(a.self, "prefix")))
+        yield "magnitude-decimal-only-if-exponent-is", z3.Implies(
+            Num.nkind(o.f(VObj("Prefix", o.f(a.self, "prefix")), "exponent")) != K_DEC, Num.nkind(c.f(r, "magnitude")) != K_DEC)
+        for t in ("Unit._known", "Prefix._known", "Dimension._known"):
+            yield "table-grows-" + t, same_table_grows(c, t)
